@@ -65,6 +65,27 @@ Proof.
   eexists. split; [vm_compute; reflexivity | vm_compute; reflexivity].
 Qed.
 
+(* the single wrapped-sum comparison b < (a_t + t) mod 2^64: exact while the sum fits, refuted beyond:
+   (1) OK instead of CASH, the caller ends below its threshold; (2) the balance wraps, tokens are minted *)
+Lemma debit_new_go_sum_exact b amt t :
+  b < two64 -> amt + t < two64 -> debit_new_go_sum b amt t = debit_exact b amt t.
+Proof.
+  unfold debit_new_go_sum, debit_exact, two64. intros Hb Hs.
+  rewrite (N.mod_small (amt + t)) by assumption.
+  destruct (N.ltb_spec b (amt + t)); [reflexivity |]. f_equal. lia.
+Qed.
+
+Lemma debit_new_go_sum_refuted :
+  (exists b amt t nb, b < two64 /\ amt < two64 /\ t < two64 /\ debit_exact b amt t = None /\
+                      debit_new_go_sum b amt t = Some nb /\ nb < t) /\
+  (exists b amt t nb, b < two64 /\ amt < two64 /\ t < two64 /\ debit_exact b amt t = None /\
+                      debit_new_go_sum b amt t = Some nb /\ b < nb + amt).
+Proof.
+  split.
+  - exists (two64 - 500), 2001, (two64 - 1000), (two64 - 2501). vm_compute. repeat split; reflexivity.
+  - exists 2000, 2001, (two64 - 1), (two64 - 1). vm_compute. repeat split; reflexivity.
+Qed.
+
 (* ------------------------------------------------------------------------------------------ *)
 (* service map lemmas *)
 Definition bal_of (o : option account) : N := match o with Some a => a_bal a | None => 0 end.
